@@ -285,6 +285,34 @@ func (s *shadowDB) rendered(table string) map[string]string {
 	return out
 }
 
+// withoutCol renders rows leaving one column out (the decrypted flag is not
+// chain data: the key release path sets it, a resync re-creates rows without it).
+func withoutCol(rows []map[string]any, pk []string, col string) map[string]string {
+	out := map[string]string{}
+	for _, r := range rows {
+		c := make(map[string]any, len(r))
+		for k, v := range r {
+			if k != col {
+				c[k] = v
+			}
+		}
+		out[pkOf(r, pk)] = renderRow(c)
+	}
+	return out
+}
+
+func (s *shadowDB) renderedWithout(table, col string) map[string]string {
+	var rows []map[string]any
+	for _, r := range s.tables[table] {
+		rows = append(rows, r)
+	}
+	return withoutCol(rows, s.specs[table].pk, col)
+}
+
+func renderedRowsWithout(srv *pgfake.Server, sp tableSpec, col string) map[string]string {
+	return withoutCol(srv.Rows(sp.name), sp.pk, col)
+}
+
 func renderedRows(srv *pgfake.Server, sp tableSpec) map[string]string {
 	out := map[string]string{}
 	for _, r := range srv.Rows(sp.name) {
